@@ -537,14 +537,16 @@ p_uthread_sleep (puint32 msec)
 	while (result != 0) {
 		/* Syllable has unimplemented clock_nanocleep() call */
 #  if defined (PLIBSYS_HAS_CLOCKNANOSLEEP) && !defined (P_OS_SYLLABLE)
+		/* clock_nanosleep() reports errors through its return value, not errno */
 		if (P_UNLIKELY ((result = clock_nanosleep (CLOCK_MONOTONIC,
 							   0,
 							   &time_req,
 							   &time_rem)) != 0)) {
+			if (result == EINTR)
 #  else
 		if (P_UNLIKELY ((result = nanosleep (&time_req, &time_rem)) != 0)) {
-#  endif
 			if (p_error_get_last_system () == EINTR)
+#  endif
 				time_req = time_rem;
 			else
 				return -1;
